@@ -896,6 +896,10 @@ GEN_SRC.update({n: gen_src(n) for n in ("SrcOcc", "SrcLess", "SrcBackwardSearch"
 GEN_SRC.update({n: gen_src(n) for n in ("SrcOrf", "SrcGc", "SrcAlphabet", "SrcQGrams", "SrcQGramIndex", "SrcIit")})       # dialect "cf" (tools/rs2lean_cf.py)
 
 
+# genio: sub-dialect "io" of dialect cf (rs2lean_cf.IoFn): the indexed FASTA reader (C12)
+GEN_SRC.update({n: gen_src(n) for n in ("SrcIdxFa",)})
+
+
 # ------------------------------------------------------------------------------------------ theorem modules built here
 
 def enclosing_decl(rel, line):
@@ -987,6 +991,9 @@ EXTRACTORS["C04"] = EXTRACTORS["C04"] + [GEN_SRC["SrcOcc"], SOFT_OCC, GEN_SRC["S
 EXTRACTORS["C05"] = EXTRACTORS.get("C05", []) + [gen_occ, GEN_SRC["SrcOcc"], GEN_SRC["SrcBackwardSearch"]]
 EXTRACTORS["C03"] = EXTRACTORS["C03"] + [GEN_SRC["SrcSampledGet"], GEN_SRC["SrcOcc"]]
 
+
+# genio: C12 — Thm/C12.lean imports RbV.Thm.GenSrcIdxFa and restates the theorems
+EXTRACTORS["C12"] = EXTRACTORS.get("C12", []) + [GEN_SRC["SrcIdxFa"]]
 
 # additive registrations (kept outside the dict literal so that concurrent edits merge)
 EXTRACTORS["C03"] = EXTRACTORS["C03"] + [gen_saiswidth]
